@@ -41,6 +41,7 @@ theorem gen_build_wiring :
     configuration, and the signals which stop it are `Signals()` = SIGINT, SIGTERM, SIGHUP. -/
 theorem gen_main_serves_built_tasks :
     Gen.Main.serveRunsBuildTasks = true ∧ Gen.Main.signalsFromSignals = true ∧
+    Gen.Main.signalChanBuffered = true ∧
     Gen.Main.signals = ["os.Interrupt", "syscall.SIGTERM", "syscall.SIGHUP"] := by decide
 
 open Corerad Corerad.Model.Server Corerad.Spec.C20
